@@ -146,7 +146,7 @@ func main() {
 		fr, err := eng.VerifyFunc(k, p)
 		if err != nil {
 			// a contract without its function (renamed / deleted): fail closed
-			r.obls = append(r.obls, &fovc.Obligation{Name: k + "/exists", Func: k, Kind: "exists", Clause: "function under contract exists: " + err.Error(), Result: "missing", Solver: "loader"})
+			r.obls = append(r.obls, &fovc.Obligation{Name: k + "/obligations-generated", Func: k, Kind: "generated", Clause: "the obligations of a function under contract can be generated: " + err.Error(), Result: "error", Solver: "fovc", Detail: err.Error()})
 			return
 		}
 		if dep {
